@@ -3,6 +3,7 @@
 package main
 
 import (
+	"reflect"
 	"sync/atomic"
 	"strconv"
 	"net"
@@ -85,6 +86,12 @@ func TestVerifDriver(t *testing.T) {
 			seen[k] = strings.Join(v, ",")
 		}
 		mu.Unlock()
+		if own := r.Header.Get("X-V-Own"); own != "" {
+			// a backend that stamps its answers with identifiers of its own under the same names
+			for _, nm := range strings.Split(own, ",") {
+				w.Header().Set(nm, "backend-own-id")
+			}
+		}
 		w.WriteHeader(200)
 	}))
 	defer backend.Close()
@@ -92,6 +99,7 @@ func TestVerifDriver(t *testing.T) {
 	var handler http.Handler
 	var lb *loadbalancer.LoadBalancer
 	var names [2]string
+	var idOn [2]bool
 	allIDs := map[string]bool{}
 	dups := 0
 	sc := bufio.NewScanner(in)
@@ -114,6 +122,25 @@ func TestVerifDriver(t *testing.T) {
 			res = ftOp(w[1:])
 		} else if len(w) >= 2 && w[0] == "px" {
 			res = pxOp(w[1:])
+		} else if len(w) == 4 && w[0] == "srvwire" {
+			// srvwire <read> <write> <idle> : the front server's timeouts as createHTTPServer sets
+			// them from an accepted configuration (ns)
+			cfg := &config.Config{}
+			cfg.Server.Port = 8080
+			cfg.Backends = []config.BackendConfig{{Name: "s1", Address: "http://127.0.0.1:9", Weight: 1}}
+			cfg.Server.Timeouts.Read, _ = strconv.Atoi(w[1])
+			cfg.Server.Timeouts.Write, _ = strconv.Atoi(w[2])
+			cfg.Server.Timeouts.Idle, _ = strconv.Atoi(w[3])
+			if err := cfg.Validate(); err != nil {
+				res = "rejected"
+			} else {
+				srv := createHTTPServer(cfg, http.NotFoundHandler())
+				res = fmt.Sprintf("eff r=%d w=%d i=%d", int64(srv.ReadTimeout), int64(srv.WriteTimeout), int64(srv.IdleTimeout))
+			}
+		} else if len(w) == 3 && w[0] == "cfgval" {
+			res = cfgValues(w[1])
+		} else if len(w) == 2 && w[0] == "startup" {
+			res = startupKeepsConfig(w[1])
 		} else if len(w) == 2 && w[0] == "gs" {
 			ms, _ := strconv.Atoi(w[1])
 			res = gracefulScenario(ms)
@@ -139,6 +166,7 @@ func TestVerifDriver(t *testing.T) {
 					cfg.Logging.RequestID = config.RequestIDConfig{Enabled: w[2] == "1", Header: unesc(w[3])}
 					cfg.Logging.Trace = config.TraceConfig{Enabled: w[4] == "1", Header: unesc(w[5])}
 					names = [2]string{logging.RequestHeaderName(cfg.Logging), logging.TraceHeaderName(cfg.Logging)}
+					idOn = [2]bool{w[2] == "1", w[4] == "1"}
 					if w[6] != "none" {
 						cfg.Plugins.Enabled = true
 						for _, p := range strings.Split(w[6], "+") {
@@ -210,8 +238,9 @@ func TestVerifDriver(t *testing.T) {
 					res = fmt.Sprintf("burst ids=%d dups=%d", len(seenIDs)+d, d)
 				}
 			case "req":
-				// id req <rid|-|none> <trace|-|none> <key|-> <bodylen> <eject 0|1>
-				if len(w) == 7 && handler != nil {
+				// id req <rid|-|none> <trace|-|none> <key|-> <bodylen> <eject 0|1> [upg] : with `upg` the
+				// request offers a protocol upgrade that the backend declines
+				if (len(w) == 7 || (len(w) == 8 && (w[7] == "upg" || w[7] == "own"))) && handler != nil {
 					mu.Lock()
 					seen = map[string]string{}
 					contacted = false
@@ -232,6 +261,23 @@ func TestVerifDriver(t *testing.T) {
 					if k := unesc(w[4]); k != "" {
 						req.Header.Set("X-API-Key", k)
 					}
+					if len(w) == 8 && w[7] == "upg" {
+						req.Header.Set("Connection", "Upgrade")
+						req.Header.Set("Upgrade", "h2c")
+					}
+					if len(w) == 8 && w[7] == "own" {
+						// (only under the names of enabled features: a disabled feature's header is an
+						// ordinary response header and passes through untouched)
+						var own []string
+						for i, nm := range names {
+							if idOn[i] {
+								own = append(own, nm)
+							}
+						}
+						if len(own) > 0 {
+							req.Header.Set("X-V-Own", strings.Join(own, ","))
+						}
+					}
 					if w[6] == "1" {
 						for _, b := range lbBackends(lb) {
 							lb.MarkBackendUnhealthy(b, 1<<40)
@@ -244,6 +290,12 @@ func TestVerifDriver(t *testing.T) {
 					for i, nm := range names {
 						key := http.CanonicalHeaderKey(nm)
 						cv, has := rec.Header()[key]
+						if has && len(cv) > 1 && req.Header.Get("X-V-Own") != "" {
+							// the backend stamped the answer with an identifier of its own under the same
+							// name: the client reads the first value (Header.Get), which must be the
+							// propagated one — further values are the backend's business
+							cv = cv[:1]
+						}
 						c := "none"
 						if has {
 							c = canon(strings.Join(cv, ","))
@@ -309,7 +361,7 @@ var cfgRules = []struct {
 	{"max tokens must be", 27}, {"refill rate must be", 28},
 	{"failure threshold must be", 29}, {"success threshold must be positive", 30}, {"circuit breaker timeout must be", 31},
 	{"circuit breaker interval must be", 32}, {"max requests must be non-negative", 33}, {"must not exceed max requests", 34},
-	{"metrics port must be", 35}, {"metrics path is required", 36}, {"admin API port must be", 37},
+	{"metrics port must be", 35}, {"metrics path is required", 36}, {"metrics path must start with", 58}, {"reserved for the health endpoint", 59}, {"admin API port must be", 37},
 	{"invalid log level", 38}, {"invalid log format", 39},
 }
 
@@ -634,4 +686,89 @@ func gracefulScenario(stuckMs int) string {
 	pmu.Unlock()
 	l.Stop() // (a balancer that was left running must not outlive the scenario)
 	return fmt.Sprintf("gs returned probesAfter=%d || ms=%d", after, dt)
+}
+
+
+// startupKeepsConfig: `startup <log level>` — everything main() does with the configuration
+// before it listens (logger set-up, NewLoadBalancer, buildHandler, createHTTPServer, the start-up
+// log) on a configuration with every feature on. The configuration object is shared with the
+// admin API, the balancer and the handlers for the life of the process: start-up must leave it
+// exactly as it was loaded (a masked token, a canonicalised list or a defaulted field written back
+// into it changes what those components enforce).
+func startupKeepsConfig(level string) string {
+	mk := func() *config.Config {
+		cfg := &config.Config{}
+		cfg.Server.Port = 18080
+		cfg.Server.Timeouts.Handler = 30
+		cfg.Backends = []config.BackendConfig{{Name: "b0", Address: "http://127.0.0.1:9", Weight: 2}, {Name: "b1", Address: "http://127.0.0.1:10"}}
+		cfg.LoadBalancer.Strategy = "weighted_round_robin"
+		cfg.LoadBalancer.WebSocketPool = config.WebSocketPoolConfig{Enabled: true, MaxIdle: 2, MaxActive: 8, IdleTimeoutSeconds: 30}
+		cfg.HealthChecks.Active = config.ActiveHealthCheckConfig{Enabled: true, Interval: 3600, Timeout: 1, Path: "/health"}
+		cfg.HealthChecks.Passive = config.PassiveHealthCheckConfig{Enabled: true, UnhealthyThreshold: 3, UnhealthyTimeout: 30}
+		cfg.RateLimit = config.RateLimitConfig{Enabled: true, MaxTokens: 100, RefillRate: 1}
+		cfg.CircuitBreaker = config.CircuitBreakerConfig{Enabled: true, MaxRequests: 0, IntervalSeconds: 60, TimeoutSeconds: 60, FailureThreshold: 5, SuccessThreshold: 2}
+		cfg.Metrics = config.MetricsConfig{Enabled: true, Port: 19090, Path: "/metrics"}
+		cfg.AdminAPI = config.AdminAPIConfig{Enabled: true, Port: 19091, AuthToken: "s3cr3t-t0ken-value", IPAllowList: []string{"2001:db8:0:1::10", "10.0.0.0/8", " 192.168.1.5"}, IPDenyList: []string{"10.9.9.9"}}
+		if level != "-" {
+			cfg.Logging.Level = level // "-": the key is omitted (documented default: info)
+		}
+		cfg.Logging.Format = "json"
+		cfg.Logging.RequestID = config.RequestIDConfig{Enabled: true, Header: "x-my-req"}
+		cfg.Logging.Trace = config.TraceConfig{Enabled: true}
+		cfg.Plugins.Enabled = true
+		cfg.Plugins.Chain = []config.PluginConfig{{Name: "headers", Config: map[string]interface{}{"set": map[string]interface{}{"X-Via": "helios"}}},
+			{Name: "custom-auth", Config: map[string]interface{}{"apiKey": "k1"}}}
+		return cfg
+	}
+	cfg, pristine := mk(), mk()
+	if err := cfg.Validate(); err != nil {
+		return "err:validate"
+	}
+	if !reflect.DeepEqual(cfg, pristine) {
+		return "CONFIG-MUTATED by Validate"
+	}
+	logging.Init(cfg.Logging) // as main() does first: the configured level is the live one
+	defer logging.Init(config.LoggingConfig{Level: "fatal", Format: "json"})
+	l, err := loadbalancer.NewLoadBalancer(cfg)
+	if err != nil {
+		return "err:lb"
+	}
+	defer l.Stop()
+	h, err := buildHandler(cfg, l)
+	if err != nil {
+		return "err:handler"
+	}
+	_ = createHTTPServer(cfg, h)
+	logStartupInfo(cfg)
+	if !reflect.DeepEqual(cfg, pristine) {
+		what := "?"
+		a, b := reflect.ValueOf(*cfg), reflect.ValueOf(*pristine)
+		for i := 0; i < a.NumField(); i++ {
+			if !reflect.DeepEqual(a.Field(i).Interface(), b.Field(i).Interface()) {
+				what = a.Type().Field(i).Name
+			}
+		}
+		return "CONFIG-MUTATED section=" + what
+	}
+	return "config-unchanged level=" + logging.L().GetLevel().String()
+}
+
+// cfgValues: `cfgval <file>` — string values of a loaded configuration exactly as the file has them
+// (tokens, addresses, header names, plugin options: nothing may rewrite them on the way in)
+func cfgValues(path string) string {
+	cfg, err := config.LoadConfig(path)
+	if err != nil {
+		return "load=err"
+	}
+	addr, key := "-", "-"
+	if len(cfg.Backends) > 0 {
+		addr = cfg.Backends[0].Address
+	}
+	for _, p := range cfg.Plugins.Chain {
+		if v, ok := p.Config["apiKey"].(string); ok {
+			key = v
+		}
+	}
+	hx := func(s string) string { return fmt.Sprintf("%x", s) }
+	return fmt.Sprintf("tok=%s addr=%s hdr=%s key=%s", hx(cfg.AdminAPI.AuthToken), hx(addr), hx(cfg.Logging.RequestID.Header), hx(key))
 }
